@@ -16,6 +16,10 @@ Compared per grammar: ordered warning lines, strict failure and its text, non-st
     thorough   families, 100000 random, all 2-rule grammars with ≤2 ops in one rule and ≤1 in the other,
                         600000 sampled 2-rule grammars ≤2 ops per rule
     exhaustive families, 100000 random, ALL 2-rule grammars ≤2 ops per rule (4.7 million)
+    every tier, last: the name PegText as a leaf — all 1-rule grammars ≤2 ops, all 2-rule grammars ≤1 op per rule
+                        (with and without captures <…>), and those with a definition of PegText (5800 grammars).
+                        A reference to the undefined name PegText must be reported like any other name; a grammar
+                        that only captures must stay silent (stats PegText_ref_*, capture_only_PegText_silent).
 """
 import argparse
 import json
@@ -47,6 +51,10 @@ def mentions(n, out):
     for k in kids(n):
         if k['t'] != 'RuleRef':
             mentions(k, out)
+
+
+def has_type(n, t):
+    return n['t'] == t or any(has_type(k, t) for k in kids(n) if k['t'] != 'RuleRef')
 
 
 def actions(n, out):
@@ -132,6 +140,9 @@ def spec_eval(tree):
             k += 1
     allm = set().union(*men.values()) if men else set()
     res['undefined'] = {x for x in allm if x not in body}
+    res['mentioned'] = allm
+    res['defined'] = set(body)
+    res['has_capture'] = any(has_type(b, 'Push') for _, b in rules)
     # MustConsume: least fixed point
     mc = {nm: False for nm in names}
     changed = True
@@ -234,11 +245,20 @@ def compare(case, rn, rs, md, stats, problems, notes):
     if set(un) != sp['unused']:
         bad('SPEC unused', {'real': sorted(set(un)), 'spec': sorted(sp['unused'])})
     if set(ud) != sp['undefined']:
-        if sp['undefined'] - set(ud) == {'PegText'} and not (set(ud) - sp['undefined']):
-            stats['deviation_pegtext_not_reported'] += 1
-            notes.setdefault('pegtext', case['text'][len(diaggen.HEADER):])
-        else:
-            bad('SPEC undefined', {'real': sorted(set(ud)), 'spec': sorted(sp['undefined'])})
+        bad('SPEC undefined', {'real': sorted(set(ud)), 'spec': sorted(sp['undefined'])})
+    # the name PegText (also the name of the rule link makes for a capture) is a name like any other
+    if 'PegText' in sp['mentioned']:
+        key = 'PegText_ref_%s_%s' % ('undefined' if 'PegText' in sp['undefined'] else 'defined',
+                                     'with_capture' if sp['has_capture'] else 'no_capture')
+        stats[key] += 1
+        if 'PegText' in sp['undefined']:
+            if 'PegText' in ud:
+                stats['PegText_ref_undefined_reported'] += 1
+            notes.setdefault('ref_' + key, case['text'][len(diaggen.HEADER):])
+    elif sp['has_capture'] and 'PegText' not in sp['defined']:
+        stats['capture_only_PegText_silent'] += 1
+        if 'PegText' in ud:
+            bad('SPEC undefined', {'real': sorted(set(ud)), 'spec': sorted(sp['undefined']), 'note': 'capture without reference'})
     W = set(lr)
     if bool(W) != bool(sp['leftrec']):
         bad('SPEC leftrec (grammar level)', {'real': sorted(W), 'spec': sorted(sp['leftrec'])})
